@@ -140,7 +140,9 @@ class RelativeValueIteration(ValueIteration):
     def _initialize_solver_state_elements(self) -> None:
         """Initialize solver state elements."""
         super()._initialize_solver_state_elements()
-        self.gain = 0.0
+        # The gain is the value of the reference (last) state; starting from 0.0
+        # is only consistent when the initial value of that state is zero
+        self.gain = float(self.values[-1])
 
     def _iteration_step(self) -> tuple[ValueFunction, float]:
         """Perform one iteration of the solution algorithm.
